@@ -96,6 +96,8 @@ class TableLineageAnalyzer:
         if quote_column.table_name is not None:
             from_standard_table = table_name_analyzer.get_standard_table(quote_column.table_name)
             from_table_lineage = table_lineage_storage.get_table_lineage(from_standard_table)
+            if not from_table_lineage.has_column(quote_column.column_name):
+                raise AnalyzerError(f"上游表中不存在引用的字段: 字段={quote_column}")
             return from_table_lineage.get_source_column_list_by_name(quote_column.column_name)
 
         # 处理表名和字段名均为空的引用对象（聚集函数的参数没有直接使用字段的情况）：获取所有上游表、字段为 None 的源字段对象
